@@ -19,6 +19,7 @@ package composite
 import (
 	"fmt"
 	"metacontroller/pkg/controller/common"
+	commonv1 "metacontroller/pkg/controller/common/api/v1"
 	v2 "metacontroller/pkg/controller/common/api/v2"
 
 	"k8s.io/apimachinery/pkg/runtime/schema"
@@ -37,6 +38,10 @@ func (pc *parentController) syncRollingUpdate(parentRevisions []*parentRevision,
 	// Give the latest revision any children it desires that aren't claimed yet,
 	// or that don't need any changes to match the desired state.
 	latest := parentRevisions[0]
+	// ControllerRevisions and the desired child maps name children relative to
+	// the parent (bare names for a namespaced parent), while observedChildren is
+	// keyed by namespace/name: index the observed children the same way.
+	observed := observedChildren.Convert(latest.parent)
 	if latest.syncResult.Status == nil {
 		// The hook returned no status; we still report the rollout condition.
 		latest.syncResult.Status = make(map[string]interface{})
@@ -65,7 +70,7 @@ func (pc *parentController) syncRollingUpdate(parentRevisions []*parentRevision,
 			}
 			// This child is claimed by another revision, but if it already matches
 			// the desired state in the latest revision, we can move it immediately.
-			child := observedChildren.FindGroupKindName(gvk.GroupKind(), name)
+			child := observed.FindGroupKindName(gvk.GroupKind(), name)
 			if child == nil {
 				// The child wasn't observed, so we don't know if it'll match latest.
 				continue
@@ -112,7 +117,7 @@ func (pc *parentController) syncRollingUpdate(parentRevisions []*parentRevision,
 			// We only continue to push more children into the latest revision if all
 			// the children already in the latest revision are happy, where "happy" is
 			// defined by the statusChecks in each child type's updateStrategy.
-			if err := pc.shouldContinueRolling(latest, observedChildren); err != nil {
+			if err := pc.shouldContinueRolling(latest, observed); err != nil {
 				// Add status condition to explain what we're waiting for.
 				updatedCondition := &dynamicobject.StatusCondition{
 					Type:    "Updated",
@@ -160,7 +165,7 @@ func (pc *parentController) syncRollingUpdate(parentRevisions []*parentRevision,
 	return nil
 }
 
-func (pc *parentController) shouldContinueRolling(latest *parentRevision, observedChildren v2.UniformObjectMap) error {
+func (pc *parentController) shouldContinueRolling(latest *parentRevision, observedChildren commonv1.RelativeObjectMap) error {
 	// We continue rolling only if all children claimed by the latest revision
 	// are updated and were observed in a "happy" state, according to the
 	// user-supplied, resource-specific status checks.
